@@ -86,6 +86,18 @@ Parsed == /\ Is("Parsed") /\ open /\ pc = "handler"
           /\ (Ev.ok \/ Ev.mayFail)
           /\ l' = l + 1 /\ UNCHANGED <<cfg, rq, out, entered, left, tmpl, accepted, cur, open, nt, pc, stats>>
 
+\* an internal forward: the handler dispatched GET <path> through the same API value (the request context already
+\* carried the first dispatch's template).  If an operation ran, it is one the path matches, and the template shown
+\* to it and to the middlewares is ITS template (C03 / C16), not the one of the outer dispatch
+Nested == /\ Is("Nested") /\ open /\ pc = "handler"
+          /\ Ev.panic = ""
+          /\ LET nrq == [method |-> Ev.method, kind |-> Ev.kind, segs |-> Ev.segs, cred |-> << >>] IN
+               \/ Ev.op = ""
+               \/ \E o \in Outcomes(cfg, nrq) : /\ o.id # "#notfound" /\ ~o.synth /\ o.id = Ev.op
+                                                  /\ Ev.has /\ Ev.tmpl = o.ts
+                                                  /\ \A k \in DOMAIN Ev.mwTmpls : Ev.mwTmpls[k] = o.ts
+          /\ l' = l + 1 /\ UNCHANGED <<cfg, rq, out, entered, left, tmpl, accepted, cur, open, nt, pc, stats>>
+
 NotFound == /\ Is("NotFound") /\ open /\ pc = "recv" /\ entered = 0
             /\ ~SpecHit(cfg, rq) /\ NotFoundT \in Out
             /\ Ev.custom = cfg.api.notFound
@@ -131,7 +143,7 @@ Done == /\ Is("Done") /\ open
         /\ pc' = "done" /\ nt' = (nt \/ Ev.status = 401)
         /\ l' = l + 1 /\ UNCHANGED <<cfg, rq, out, entered, left, tmpl, accepted, cur, open, stats>>
 
-Step == Config \/ Req \/ MwEnter \/ Auth \/ Handler \/ Parsed \/ NotFound \/ Cors \/ Spec \/ MwLeave \/ Done
+Step == Config \/ Req \/ MwEnter \/ Auth \/ Handler \/ Parsed \/ Nested \/ NotFound \/ Cors \/ Spec \/ MwLeave \/ Done
 
 RECURSIVE NextBoundary(_)
 NextBoundary(k) == IF k > Len(Trace) THEN k
